@@ -79,6 +79,13 @@ impl<C: Config, Q: Query> Snapshot<C, Q> {
 
         let result = entry.invoke_executor::<Q>(query, &tracked_engine).await;
 
+        #[cfg(feature = "verif")]
+        qbice_storage::verif::task_point(
+            "sp_after_exec",
+            qbice_storage::verif::PointKind::Preempt,
+        )
+        .await;
+
         // WAIT POINT: We must wait all the potentially spawned threads that
         // might hold references to the tracked engine to finish before
         // proceeding, to ensure that there are no more references that can
@@ -114,6 +121,13 @@ impl<C: Config, Q: Query> Snapshot<C, Q> {
         let query = query.clone();
 
         async move {
+            #[cfg(feature = "verif")]
+            qbice_storage::verif::task_point(
+                "sp_guarded_begin",
+                qbice_storage::verif::PointKind::Await,
+            )
+            .await;
+
             let old_kind = self.query_kind().await;
             let existing_forward_edges = self.forward_edge_order().await;
 
@@ -162,6 +176,13 @@ impl<C: Config, Q: Query> Snapshot<C, Q> {
             } else {
                 (self.engine().new_write_transaction(), None, false)
             };
+
+            #[cfg(feature = "verif")]
+            qbice_storage::verif::task_point(
+                "sp_before_publish",
+                qbice_storage::verif::PointKind::Await,
+            )
+            .await;
 
             self.computing_lock_to_computed(
                 query.clone(),
